@@ -66,6 +66,13 @@ let dispatch fn args = match fn, args with
     hex_of_z m ^ ":" ^ str_of_bool ok
   | "indexed_object", [nil; len; index] ->
     if indexed_ok (bool_of_str nil) (z_of_hex len) (z_of_hex index) then "ok" else "err"
+  | "read_length", [b; off] ->
+    (match read_length (bytes_of_hex b) (z_of_hex off) with
+     | LOk (l, ind, nx) -> "ok:" ^ hex_of_z l ^ ":" ^ str_of_bool ind ^ ":" ^ hex_of_z nx
+     | LErr -> "err" | LOOB -> "OUT-OF-BOUNDS")
+  | "is_indef_term", [b; off] ->
+    (match is_indef_term (bytes_of_hex b) (z_of_hex off) with
+     | IOk t -> "ok:" ^ str_of_bool t | IErr -> "err" | IOOB -> "OUT-OF-BOUNDS")
   | "buf_to_int64", [b] -> hex_of_z (buf_to_int64 (bytes_of_hex b))
   | _ -> failwith ("unknown function " ^ fn)
 let () = main dispatch
